@@ -119,36 +119,36 @@ func fenvFunction(L *LState, level int) *LFunction {
 	return dbg.frame.Fn
 }
 
-func baseGetFEnv(L *LState) int {
-	var value LValue
-	if L.GetTop() == 0 {
-		value = LNumber(1)
+// fenvTarget reads argument 1 of getfenv/setfenv as lbaselib.c's getfunc does: a function, or a
+// level (absent or nil means 1 for getfenv; numeric strings are converted); anything else is an
+// argument error. Level 0 stands for the thread's table of globals: fn is nil then.
+func fenvTarget(L *LState, opt bool) (fn *LFunction, level int) {
+	value := L.Get(1)
+	if f, ok := value.(*LFunction); ok {
+		return f, -1
+	}
+	if opt && (L.GetTop() == 0 || value == LNil) {
+		level = 1
 	} else {
-		value = L.Get(1)
+		level = int(L.CheckNumber(1))
 	}
-
-	if fn, ok := value.(*LFunction); ok {
-		if !fn.IsG {
-			L.Push(fn.Env)
-		} else {
-			L.Push(L.G.Global)
-		}
-		return 1
+	if level == 0 {
+		return nil, 0
 	}
+	return fenvFunction(L, level), level
+}
 
-	if number, ok := value.(LNumber); ok {
-		level := int(float64(number))
-		if level == 0 {
-			L.Push(L.Env)
-		} else if fn := fenvFunction(L, level); fn.IsG {
-			L.Push(L.G.Global)
-		} else {
-			L.Push(fn.Env)
-		}
-		return 1
+func baseGetFEnv(L *LState) int {
+	fn, _ := fenvTarget(L, true)
+	switch {
+	case fn == nil:
+		L.Push(L.Env)
+	case fn.IsG:
+		// a Go function runs in the thread's table of globals
+		L.Push(L.Env)
+	default:
+		L.Push(fn.Env)
 	}
-
-	L.Push(L.G.Global)
 	return 1
 }
 
@@ -375,41 +375,18 @@ func baseSelect(L *LState) int {
 }
 
 func baseSetFEnv(L *LState) int {
-	var value LValue
-	if L.GetTop() == 0 {
-		value = LNumber(1)
-	} else {
-		value = L.Get(1)
-	}
 	env := L.CheckTable(2)
-
-	if fn, ok := value.(*LFunction); ok {
-		if fn.IsG {
-			L.RaiseError("cannot change the environment of given object")
-		} else {
-			fn.Env = env
-			L.Push(fn)
-			return 1
-		}
+	fn, _ := fenvTarget(L, false)
+	if fn == nil {
+		L.Env = env
+		return 0
 	}
-
-	if number, ok := value.(LNumber); ok {
-		level := int(float64(number))
-		if level == 0 {
-			L.Env = env
-			return 0
-		}
-		if fn := fenvFunction(L, level); fn.IsG {
-			L.RaiseError("cannot change the environment of given object")
-		} else {
-			fn.Env = env
-			L.Push(fn)
-			return 1
-		}
+	if fn.IsG {
+		L.RaiseError("cannot change the environment of given object")
 	}
-
-	L.RaiseError("cannot change the environment of given object")
-	return 0
+	fn.Env = env
+	L.Push(fn)
+	return 1
 }
 
 func baseSetMetatable(L *LState) int {
